@@ -486,6 +486,43 @@ def regime_boundary_pairs(kind, param, tier):
     return np.hstack(Ls), np.hstack(Rs)
 
 
+def int_states(kind):
+    """integer-valued admissible states (every letter exactly representable in int32)"""
+    if kind == "euler1d":
+        return np.array([(r, u, p_) for r in (1, 2, 5) for u in (-3, -1, 0, 1, 2, 7) for p_ in (1, 3, 4)], float).T
+    if kind == "euler2d":
+        return np.array([(r, u, v, p_) for r in (1, 3) for u in (-3, -1, 0, 2, 5) for v in (-2, 0, 1) for p_ in (1, 4)], float).T
+    if kind == "shallowwater":
+        return np.array([(h, u) for h in (1, 2, 5, 40) for u in (-9, -3, -1, 0, 1, 2, 7)], float).T
+    return np.array([[-7, -5, -3, -2, -1, 0, 1, 2, 3, 5, 6, 9]], float)
+
+
+def dtype_independence(kind, param, flux, res=None):
+    """the same integer-valued face states handed over as float64, int64 and int32 arrays: identical fluxes, bit for bit"""
+    M = build(kind, param)
+    out = []
+    base = "C02/%s/%s" % (M.name, flux if flux is not None else "builtin")
+    L, R = pairs(int_states(kind))
+    with np.errstate(all="ignore"):
+        F = M.F(flux, L.copy(), R.copy())
+    for dt in (np.int64, np.int32):
+        with np.errstate(all="ignore"):
+            G = M.F(flux, L.astype(dt), R.astype(dt))
+        if res is not None:
+            res.evals += L.shape[1]
+            res.nontrivial += L.shape[1]
+            res.census["%s/integer-typed-pairs" % M.name] += L.shape[1]
+        for k, comp in enumerate(M.comps):
+            if np.shape(G[k]) != np.shape(F[k]):
+                out.append(("%s/input-dtype/%s" % (base, comp), "%s %s: %s face states give a flux of shape %r, float64 states %r" % (M.name, M.tag(), dt.__name__, np.shape(G[k]), np.shape(F[k])), 0, dt.__name__))
+                continue
+            bad = ~((G[k] == F[k]) | (np.isnan(G[k]) & np.isnan(F[k])))
+            for i in np.flatnonzero(bad)[:3]:
+                out.append(("%s/input-dtype/%s" % (base, comp), "%s %s: L=%r R=%r as %s arrays give %r, as float64 arrays %r" % (
+                    M.name, M.tag(), L[:, i].tolist(), R[:, i].tolist(), dt.__name__, G[k][i], F[k][i]), int(i), dt.__name__))
+    return out
+
+
 def configs(tier):
     th = tier == "thorough"
     cfg = []
@@ -522,6 +559,8 @@ def shard(arg):
         for site, what, i in evaluate(kind, param, flux, lb, rb, res):
             res.violation(site.replace("/upwind/", "/upwind/regime-boundary/"), what, {"kind": kind, "param": param, "flux": flux, "L": lb[:, i].tolist(), "R": rb[:, i].tolist(), "edge": True})
         res.census["%s/regime-boundary-pairs" % kind] += res.evals - n0
+    for site, what, i, dtn in dtype_independence(kind, param, flux, res):
+        res.violation(site, what, {"kind": kind, "param": param, "flux": flux, "dtype": dtn})
     # batch composition: on the quick alphabet of this configuration (one mixed batch small enough to hold)
     Pq = states_of(kind, param, "quick")
     Lq, Rq = pairs(Pq)
@@ -540,6 +579,8 @@ def replay(case):
     param = case["param"]
     if isinstance(param, list):
         param = tuple(param)
+    if "dtype" in case:
+        return [(s_, w) for s_, w, i, dtn in dtype_independence(case["kind"], param, case["flux"]) if dtn == case["dtype"]]
     if "batch" in case:
         Lq, Rq = pairs(states_of(case["kind"], param, "quick"))
         return [(s_, w) for s_, w, i, mode in batch_independence(case["kind"], param, case["flux"], Lq, Rq) if i == case["index"] and mode == case["batch"]]
